@@ -1,5 +1,6 @@
-(* C10 model (CURRENT source, i.e. after commit aa389fd "inverse-CDF draws must not
-   fall beyond the last state"):
+(* C10 model (CURRENT source, i.e. after commits aa389fd "inverse-CDF draws must not
+   fall beyond the last state" and 454b8b2 "simulate_indices must normalise negative
+   init indices"):
      quantecon/util/array.py::searchsorted
      quantecon/markov/core.py::MarkovChain.__init__ (checks), cdfs, cdfs1d, simulate_indices,
         simulate (state_values=None), _generate_sample_paths, _generate_sample_paths_sparse,
@@ -206,6 +207,8 @@ Definition simulate_indices (c : chain) (ts : Z) (init : init_t) (num_reps : opt
   (drawn : list Z) (stream : list T) : res (bool * list (list Z)) :=
   bind (init_states (chain_n c) init num_reps drawn) (fun di =>
   let '(dim2, inits) := di in
+  (* init_states = init_states % self.n  (commit 454b8b2: negative indices count from the end) *)
+  let inits := map (fun i => i mod (chain_n c)) inits in
   if ts <? 1 then ValueErr    (* negative dimensions are not allowed *)
   else bind (chain_paths c inits (chop (length inits) (Z.to_nat (ts - 1)) stream))
             (fun X => Ok (dim2, X))).
